@@ -3,7 +3,7 @@
    library function it is documented to alias.  A case records one call of the alias through
    evaluate_expression and one call of the library function through execute_script with the
    same arguments; the documented table (BareLib!ExprAliases) names the function it must equal. *)
-EXTENDS BareLib, Json, IOUtils
+EXTENDS BareLib, Json, IOUtils, TreeEq
 Cases == JsonDeserialize(IOEnv.CASES)
 VARIABLES tid, verdict
 vars == <<tid, verdict>>
@@ -12,8 +12,8 @@ Law ==
     IF C.alias \notin DOMAIN ExprAliases THEN "not-an-alias"
     ELSE IF ExprAliases[C.alias] # C.lib THEN "wrong-target"
     ELSE IF C.s1 # C.s2 THEN "status-differs"
-    ELSE IF ~C.nondet /\ C.r1 # C.r2 THEN "result-differs"
-    ELSE IF ~C.nondet /\ C.g1 # C.g2 THEN "effect-differs"
+    ELSE IF ~C.nondet /\ ~TreeEq(C.r1, C.r2) THEN "result-differs"
+    ELSE IF ~C.nondet /\ ~TreeMapEq(C.g1, C.g2) THEN "effect-differs"
     ELSE "ok"
 Init == tid \in 1..Len(Cases) /\ verdict = "open"
 Next == /\ verdict = "open"
